@@ -174,6 +174,8 @@ func TestC09(t *testing.T) {
 			run.Sample(map[string]any{"seed": seed, "config": cfg.String(), "shape": pc.Sig, "leaves": describeLeaves(pc.Leaves), "output": out})
 		}
 	}
+	// the repository's own Taggable protobuf payload (structpb maps)
+	c09Proto(run, r, run.N(2000, 60000))
 	// rotation payloads are consumed, never forwarded
 	for i := 0; i < run.N(200, 5000); i++ {
 		cfg := genCfgEnc(r)
